@@ -26,12 +26,15 @@ theorem foldl_inv {α : Type} (P : St → Prop) (f : St → α → St) (hf : ∀
   | nil => intro s hp; exact hp
   | cons a l ih => intro s hp; exact ih _ (hf _ _ hp)
 
-/-- both maps unchanged -/
-def SameCL (s s' : St) : Prop := s'.b.channels = s.b.channels ∧ s'.b.listeners = s.b.listeners
+/-- both maps and their statistics gauges unchanged -/
+def SameCL (s s' : St) : Prop := s'.b.channels = s.b.channels ∧ s'.b.listeners = s.b.listeners ∧
+  s'.b.stats.numChannels = s.b.stats.numChannels ∧ s'.b.stats.numBusListeners = s.b.stats.numBusListeners ∧
+  s.b.nextCookie ≤ s'.b.nextCookie
 
-theorem SameCL.refl (s : St) : SameCL s s := ⟨rfl, rfl⟩
+theorem SameCL.refl (s : St) : SameCL s s := ⟨rfl, rfl, rfl, rfl, Nat.le_refl _⟩
 theorem SameCL.trans {a b c : St} (h1 : SameCL a b) (h2 : SameCL b c) : SameCL a c :=
-  ⟨h2.1.trans h1.1, h2.2.trans h1.2⟩
+  ⟨h2.1.trans h1.1, h2.2.1.trans h1.2.1, h2.2.2.1.trans h1.2.2.1, h2.2.2.2.1.trans h1.2.2.2.1,
+   Nat.le_trans h1.2.2.2.2 h2.2.2.2.2⟩
 
 syntax "frame_tac" ident : tactic
 macro_rules
@@ -75,11 +78,11 @@ theorem removeService_calls_cl : ∀ (l : List Nat) (s s' : St), removeService.c
         subst h
         refine SameCL.trans (SameCL.trans ?_ h1) ?_
         · split <;> simp [SameCL]
-        · simp only [SameCL, St.stat_b_channels, St.stat_b_listeners]
-          apply foldl_inv (fun s => s.b.channels = s1.b.channels ∧ s.b.listeners = s1.b.listeners)
-          · intro s a hp
-            split <;> simp_all
-          · simp
+        · simp only [SameCL, St.stat_b_channels, St.stat_b_listeners, St.stat_b_stats, St.stat_b_nextCookie]
+          exact foldl_inv (fun s => s.b.channels = s1.b.channels ∧ s.b.listeners = s1.b.listeners ∧
+            s.b.stats.numChannels = s1.b.stats.numChannels ∧ s.b.stats.numBusListeners = s1.b.stats.numBusListeners ∧
+            s1.b.nextCookie ≤ s.b.nextCookie) _
+            (by intro s a hp; split <;> simp_all) _ _ (by simp)
 
 @[grind →] theorem removeEventSubscription_cl {s s' : St} {cid c ev} : removeEventSubscription s cid c ev = .ok s' → SameCL s s' := by
   frame_tac removeEventSubscription
@@ -156,12 +159,12 @@ theorem removeIntrospectionConn_go_cl : ∀ (l : List (Nat × Option Uuid × Lis
     all_goals (try (simp at h; done))
     · have h1 := replyPending_cl _ _ _ _ _ ‹_›
       have h2 := ih _ _ h
-      simp_all [SameCL]
+      exact SameCL.trans (SameCL.trans (by simp [SameCL]) h1) h2
     · have h2 := ih _ _ h
-      simp_all [SameCL]
+      exact SameCL.trans (by simp [SameCL]) h2
     · have h1 := askIntrospection_cl ‹_›
       have h2 := ih _ _ h
-      simp_all [SameCL]
+      exact SameCL.trans (SameCL.trans (by simp [SameCL]) h1) h2
 
 @[grind →] theorem removeIntrospectionConn_cl {s s' : St} {cid} : removeIntrospectionConn s cid = .ok s' → SameCL s s' := by
   intro h
@@ -303,7 +306,14 @@ theorem sendAll_cl : ∀ (l : List Rsp) (s : St) (id : ConnId), SameCL s (sendAl
 @[simp, grind =] theorem sendAll_channels (l : List Rsp) (s : St) (id : ConnId) : (sendAll s id l).1.b.channels = s.b.channels :=
   (sendAll_cl l s id).1
 @[simp, grind =] theorem sendAll_listeners (l : List Rsp) (s : St) (id : ConnId) : (sendAll s id l).1.b.listeners = s.b.listeners :=
-  (sendAll_cl l s id).2
+  (sendAll_cl l s id).2.1
+
+@[simp, grind =] theorem sendAll_numChannels (l : List Rsp) (s : St) (id : ConnId) : (sendAll s id l).1.b.stats.numChannels = s.b.stats.numChannels :=
+  (sendAll_cl l s id).2.2.1
+@[simp, grind =] theorem sendAll_numBusListeners (l : List Rsp) (s : St) (id : ConnId) : (sendAll s id l).1.b.stats.numBusListeners = s.b.stats.numBusListeners :=
+  (sendAll_cl l s id).2.2.2.1
+theorem sendAll_nextCookie_le (l : List Rsp) (s : St) (id : ConnId) : s.b.nextCookie ≤ (sendAll s id l).1.b.nextCookie :=
+  (sendAll_cl l s id).2.2.2.2
 
 @[grind →] theorem startBusListener_channels {s s' : St} {id serial c sc} {ok : Bool} : startBusListener s id serial c sc = .ok (s', ok) → s'.b.channels = s.b.channels := by
   intro h; unfold startBusListener at h
